@@ -852,3 +852,10 @@ fire('r4-fromkeys-shared-dict', ['C20'], 'SWEEP.SHARED-MUTABLE-FILL',
      ('labtech/diagram.py', 'TaskStructure.build', "        task_structure = cls()\n", "        task_structure = cls()\n        task_structure.task_type_to_rels = dict.fromkeys([type(task) for task in tasks], {})\n"))
 fire('r4-pickled-lt-altered', ['C15', 'C04'], 'C15.STATE-CLEAN',
      ('labtech/tasks.py', '_task__getstate__', "'_lt': self._lt,", "'_lt': None,"))
+silent('r4-handle-closed-by-finally', ['C12', 'C13'],
+       (CACHE, 'PickleCache.save_result', "        with data_file:\n            pickle.dump(result, data_file, protocol=self.pickle_protocol)",
+        "        try:\n            pickle.dump(result, data_file, protocol=self.pickle_protocol)\n        finally:\n            data_file.close()"))
+silent('r4-handle-closed-by-closing', ['C12', 'C13'],
+       (CACHE, 'PickleCache.save_result', "        with data_file:\n            pickle.dump(result, data_file, protocol=self.pickle_protocol)",
+        "        with contextlib.closing(data_file):\n            pickle.dump(result, data_file, protocol=self.pickle_protocol)"),
+       (CACHE, None, "import json\n", "import contextlib\nimport json\n"))
